@@ -29,13 +29,17 @@ fn kx_serde_visit_bytes_and_buf() {
     }
 }
 
-// @ob props=C15 tier=quick kind=Kbounded bound="ASCII input of 0..=4 bytes" features=serde fns=BytesVisitor::visit_str,BytesVisitor::visit_string,BytesMutVisitor::visit_str,BytesMutVisitor::visit_string
+// @ob props=C15 tier=quick kind=Kbounded bound="UTF-8 input of 0..=4 bytes (ASCII, or one 2-byte code point + ASCII)" features=serde fns=BytesVisitor::visit_str,BytesVisitor::visit_string,BytesMutVisitor::visit_str,BytesMutVisitor::visit_string
 #[kani::proof]
 #[kani::unwind(6)]
 fn kx_serde_visit_str_and_string() {
     let (a, n) = input();
-    kani::assume(a[0] < 0x80 && a[1] < 0x80 && a[2] < 0x80 && a[3] < 0x80);
+    // valid UTF-8: either all ASCII, or ONE two-byte code point (U+0080..U+07FF) followed by ASCII -
+    // so that a change confusing chars with bytes is seen (seed C15-4)
+    let two_byte = n >= 2 && a[0] >= 0xC2 && a[0] <= 0xDF && a[1] >= 0x80 && a[1] <= 0xBF;
+    kani::assume((a[0] < 0x80 && a[1] < 0x80 || two_byte) && a[2] < 0x80 && a[3] < 0x80);
     let s: &str = unsafe { core::str::from_utf8_unchecked(&a[..n]) };
+    kani::cover!(two_byte);
     let i: usize = kani::any();
     let which: u8 = kani::any();
     match which {
